@@ -50,6 +50,13 @@ func checkRuntime(c *Ctx, prop string) {
 	if prop == "C09" {
 		rtReEnable(c, c.scale(40, 1000))
 	}
+	if prop == "C07" {
+		// a blocking report made through a transforming wrapper (tag reformatting source around a watcher or a
+		// Blank) must keep its meaning: the C20 stream with a real wrapped Dials next to a native one
+		for i := c.scale(25, 400); i > 0; i-- {
+			c20Transforming(c, rng.Fork(), false)
+		}
+	}
 	t0 := time.Now()
 	for i := 0; i < n; i++ {
 		cfg := rtConfig{
@@ -329,6 +336,13 @@ func rtOracle(r *rtRun, prop string) []string {
 			}
 		}
 	case "C05":
+		for _, in := range r.installs {
+			// "... or the last view that verified": a stack that does not verify is never installed while
+			// verification is in force (always, without DelayInitialVerification)
+			if (!in.skip || !r.cfg.delay) && !slotsValid(in.cfg) {
+				bad("version %d (%s) does not verify, yet it replaced the last verified view (verification was in force)", in.serial, in.cfg)
+			}
+		}
 		for i, in := range r.installs {
 			if in.serial != uint64(i+1) {
 				bad("install #%d has serial %d (serials must count installs)", i+1, in.serial)
